@@ -47,6 +47,7 @@ type vector struct {
 	Base  []string   `json:"base"`  // model path the name is resolved against
 	Esc   bool       `json:"esc"`   // verdict of the generator (echoed, not used for judging)
 	Cls   string     `json:"cls"`
+	Bare  bool       `json:"bare"` // no canaries: the root is empty and its ancestors hold nothing but the way to it
 }
 
 type change struct {
@@ -550,7 +551,7 @@ func eq(a, b []string) bool {
 func execute(v vector, tmpBase string) (ev map[string]any) {
 	ev = map[string]any{
 		"e": "call", "comp": v.Comp, "op": v.Op, "depth": v.Depth, "pad": v.Pad, "abs": v.Abs, "segs": v.Segs,
-		"roots": v.Roots, "base": v.Base, "esc": v.Esc, "cls": v.Cls,
+		"roots": v.Roots, "base": v.Base, "esc": v.Esc, "cls": v.Cls, "bare": v.Bare,
 		"err": false, "panic": false, "errtext": "", "changes": []change{}, "got": [][]string{},
 	}
 	if v.Segs == nil {
@@ -645,6 +646,9 @@ func execute(v vector, tmpBase string) (ev map[string]any) {
 	}
 	seen := map[string]bool{}
 	for _, r := range sb.roots {
+		if v.Bare {
+			break
+		}
 		for _, d := range ancestors(top, r) {
 			if !seen[d] {
 				seen[d] = true
@@ -652,7 +656,7 @@ func execute(v vector, tmpBase string) (ev map[string]any) {
 			}
 		}
 	}
-	if v.Comp != "zip" {
+	if v.Comp != "zip" && !v.Bare {
 		rem := maxLen - steps(base, sb.roots[0])
 		if rem > 3 {
 			rem = 3
@@ -705,6 +709,8 @@ func main() {
 	defer os.RemoveAll(procBase)
 	tmpBase := procBase + "/sand"
 	_ = os.Mkdir(tmpBase, 0o755)
+	// never empty: a component that (wrongly) tidies up empty directories above its root stops here at the latest
+	_ = os.WriteFile(tmpBase+"/.keep", []byte("x"), 0o600)
 	_ = os.Mkdir(procBase+"/tmp", 0o755)
 	os.Setenv("TMPDIR", procBase+"/tmp")
 	tr, err := vio.NewTrace(os.Args[2])
